@@ -1146,7 +1146,7 @@ async fn run_stream(g: &Global, cfg: &StreamCfg, ch: Arc<Mutex<Chooser>>) {
             ds.sort();
             ds.dedup();
             for d in ds {
-                if default_tick != Some(d) && d != TICK_SKIP {
+                if default_tick != Some(d) && d != TICK_SKIP && d != cfg.rt_ms {
                     menu.push(SAct::Tick(d));
                 }
             }
@@ -1502,7 +1502,8 @@ enum DAct {
 /// response timeout` makes Transport::run spin (its test is the strict
 /// `elapsed > response_timeout` while it then sleeps for
 /// `response_timeout - elapsed` = 0); under the frozen clock that never ends.
-/// A real clock moves on, so this is an artefact of the paused clock.
+/// A real clock moves on, so this is an artefact of the paused clock. The
+/// same holds for a step equal to the configured response timeout.
 /// The library default (RESPONSE_TIMEOUT.default()). The main timing cases
 /// configure exactly this value, because `Config::set_response_timeout` turns
 /// out not to influence single requests (finding reported by the separate
